@@ -118,6 +118,7 @@ pub fn run(op: &str, rd: &mut Rd) -> Option<R> {
             let text = match String::from_utf8(bytes) { Ok(s) => s, Err(_) => return Ok("NOT-UTF8".to_string()) };
             Ok(e_svg_res(BezPath::from_svg(&text)))
         })(),
+        #[cfg(feature = "std")]
         "svg.write" => (|| -> R {
             // to_svg text (hex) | parse(to_svg) result
             let p = rd.els()?;
